@@ -17,6 +17,7 @@ def run(ctx):
     if ctx.tier == "quick":
         dscommon.run_family(ctx, "C11", fmt="text", limit=40, always_nontrivial=True, fresh=True)
         dscommon.run_family(ctx, "C11All", fmt="text", always_nontrivial=True)
+        dscommon.run_family(ctx, "C11Sel", fmt="text", always_nontrivial=True)
         calreplay.run(ctx, "MC_Calendar_quick")
         # the ends of the supported range: 1900 and 2100 are century years without a leap day
         calreplay.run(ctx, "MC_Calendar_edge1900")
@@ -24,6 +25,8 @@ def run(ctx):
     else:
         dscommon.run_family(ctx, "C11", fmt="text", always_nontrivial=True)
         dscommon.run_family(ctx, "C11All", fmt="netcdf", always_nontrivial=True)
+        dscommon.run_family(ctx, "C11Sel", fmt="text", always_nontrivial=True)
+        dscommon.run_family(ctx, "C11Sel", fmt="netcdf", always_nontrivial=True)
         calreplay.run(ctx, "MC_Calendar_full")
         ctx.exhaustive = True
     par.clean_workdirs()
